@@ -114,6 +114,7 @@ structure DataShape where
 structure MessageMsg where
   recipient : Recipient
   dataNonEmpty : Bool
+  dataValid : Bool                     -- the raw `data` member is valid JSON (the decoder does not check)
   data : DataShape
   deriving DecidableEq, Repr
 
@@ -125,6 +126,7 @@ structure Common where
 structure AddSession where
   c : Common
   opts : Bool
+  userValid : Bool                     -- the raw `user` member is absent or valid JSON
   deriving DecidableEq, Repr
 
 structure UpdateSession where
@@ -153,6 +155,7 @@ structure Transient where
   ttype : String
   key : String
   value : Option String                -- raw JSON; `none` = member absent
+  valueValid : Bool                    -- the raw `value` member is absent or valid JSON
   deriving DecidableEq, Repr
 
 structure ClientMessage where
@@ -187,6 +190,7 @@ extractor found in the working tree; the theorems of `Props/C10.lean` are about
 `Facts.current`, the counter-examples there about variations of it. -/
 structure Facts where
   validation : List (String × String × String × String)
+  rawValidated : List (String × String)
   derefs : List (String × String × String)
   dispatchTable : List (String × String)
   localTypes : List String
@@ -199,6 +203,7 @@ structure Facts where
 
 def Facts.current : Facts :=
   { validation := Generated.ShapesClient.validation,
+    rawValidated := Generated.ShapesClient.rawValidated,
     derefs := Generated.ShapesClient.derefs,
     dispatchTable := Generated.ShapesClient.dispatchTable,
     localTypes := Generated.ShapesClient.localTypes,
@@ -276,20 +281,25 @@ def checkRoom (r : RoomMsg) : V :=
   | some f =>
     if tbl F "RoomClientMessage" "*" "Federation" "optsub" then checkFederation f else .ok
 
+/-- Is the raw member `field` of `recv` passed to `json.Valid` by its `CheckValid`? -/
+def rawChecked (recv field : String) : Bool := F.rawValidated.contains (recv, field)
+
 def checkMessageMsg (m : MessageMsg) : V :=
   if !m.dataNonEmpty then invalid
+  else if rawChecked F "MessageClientMessage" "Data" ∧ !m.dataValid then invalid
   else if m.recipient.rtype = "room" ∨ m.recipient.rtype = "call" then .ok
   else if m.recipient.rtype = "session" then (if m.recipient.sid = .empty then invalid else .ok)
   else if m.recipient.rtype = "user" then (if m.recipient.uid = .empty then invalid else .ok)
   else invalid
 
 def checkControl (m : MessageMsg) : V :=
-  if tbl F "ControlClientMessage" "*" "MessageClientMessage" "sub" then checkMessageMsg m else .ok
+  if tbl F "ControlClientMessage" "*" "MessageClientMessage" "sub" then checkMessageMsg F m else .ok
 
 def checkCommon (c : Common) : V :=
   if c.sid = "" then invalid else if c.room = .empty then invalid else .ok
 
 def checkAdd (a : AddSession) : V :=
+  if rawChecked F "AddSessionInternalClientMessage" "User" ∧ !a.userValid then invalid else
   if tbl F "AddSessionInternalClientMessage" "*" "CommonSessionInternalClientMessage" "sub" then checkCommon a.c else .ok
 
 def checkUpd (a : UpdateSession) : V :=
@@ -312,6 +322,7 @@ def checkInternal (i : Internal) : V :=
   (checkField F "InternalClientMessage" i.itype "Dialout" i.dialout (checkDialout F))
 
 def checkTransient (t : Transient) : V :=
+  if rawChecked F "TransientDataClientMessage" "Value" ∧ !t.valueValid then invalid else
   if (t.ttype = "set" ∨ t.ttype = "remove") ∧ t.key = "" then invalid else .ok
 
 /-- `(*ClientMessage).CheckValid`. -/
@@ -319,10 +330,10 @@ def checkValid (m : ClientMessage) : V :=
   if tbl F "ClientMessage" m.mtype "" "reject" then invalid else
   (checkField F "ClientMessage" m.mtype "Hello" m.hello (checkHello F)).andThen <|
   (checkField F "ClientMessage" m.mtype "Room" m.room (checkRoom F)).andThen <|
-  (checkField F "ClientMessage" m.mtype "Message" m.message checkMessageMsg).andThen <|
+  (checkField F "ClientMessage" m.mtype "Message" m.message (checkMessageMsg F)).andThen <|
   (checkField F "ClientMessage" m.mtype "Control" m.control (checkControl F)).andThen <|
   (checkField F "ClientMessage" m.mtype "Internal" m.internal (checkInternal F)).andThen <|
-  (checkField F "ClientMessage" m.mtype "TransientData" m.transient checkTransient)
+  (checkField F "ClientMessage" m.mtype "TransientData" m.transient (checkTransient F))
 
 /-! ## State -/
 
@@ -403,6 +414,9 @@ def mcuTypes : List String :=
 
 def Sess.inBy (s : Sess) : Bool := s.room = .by
 
+/-- The session takes part in a room (a local one, or a remote one through federation) and sees its events. -/
+def Sess.seesRoom (s : Sess) : Bool := decide (s.room ≠ .none) || s.fed
+
 def roomExists (s : Sess) : RoomClass → Bool
   | .by => true
   | .other n => s.room = .other n
@@ -475,7 +489,7 @@ def modelRoom (m : ClientMessage) : Outcome :=
     | .empty =>
       if s.fed then
         -- forwarded to the federation target, which answers
-        .ok { sMay := "room" :: ambient, st := .chg } (withSess st { s with fed := false, room := .none })
+        .ok { sMay := "room" :: "error:*" :: ambient, st := .any } (withSess st { s with fed := false, room := .none })
       else if s.room = .none then .ok {} st
       else .ok { sMust := ["room"], sMay := ambient, bMust := leaveB, bMay := leaveBMay, st := .chg }
               (withSess st { s with room := .none })
@@ -498,6 +512,9 @@ def modelRoom (m : ClientMessage) : Outcome :=
                 bMay := (if s.inBy ∨ rid = .by then ["event.participants.update"] else []) ++ (if s.internal then [] else kick), st := .chg }
             (withSess st (joined s rid))
 
+/-- What is forwarded if the raw payload is not valid JSON: the frame is not well-formed. -/
+def fwdKind (kind : String) (valid : Bool) : String := if valid then kind else "malformed"
+
 /-- Routing of `message` / `control` to the two observers. -/
 def route (kind : String) (rc : Recipient) (hasVirt : Bool) : Obs :=
   -- a detached session of the addressed user / room stores the message (state of that session changes)
@@ -512,7 +529,7 @@ def route (kind : String) (rc : Recipient) (hasVirt : Bool) : Obs :=
     (if s.inBy ∧ rc.rtype = "room" then { bMust := [kind], st := .any } else { st := .any })
   else {}
 
-def withAmbient (o : Obs) : Obs := if s.room = .none then o else { o with sMay := o.sMay ++ ambient }
+def withAmbient (o : Obs) : Obs := if s.seesRoom then { o with sMay := o.sMay ++ ambient } else o
 
 /-- Media-server work: the reply comes from an external party (and from goroutines of its own). -/
 def mcuObs (rc : Recipient) : Obs :=
@@ -544,8 +561,8 @@ def modelMessage (m : ClientMessage) : Outcome :=
       | .ok =>
         if rc.rtype = "session" ∧ mcuTypes.contains mm.data.dtype then .ok (mcuObs rc) st
         else if mm.data.dtype = "sendoffer" then .ok (mcuObs rc) st
-        else .ok (withAmbient s (route s "message" rc hasVirt)) st
-    else .ok (withAmbient s (route s "message" rc hasVirt)) st
+        else .ok (withAmbient s (route s (fwdKind "message" mm.dataValid) rc hasVirt)) st
+    else .ok (withAmbient s (route s (fwdKind "message" mm.dataValid) rc hasVirt)) st
 
 /-- `Hub.processControlMsg`. -/
 def modelControl (m : ClientMessage) : Outcome :=
@@ -553,7 +570,7 @@ def modelControl (m : ClientMessage) : Outcome :=
   | none => .crash "processControlMsg: message.Control"
   | some mm =>
     if !s.internal ∧ s.restricted then .ok (withAmbient s {}) st
-    else .ok (withAmbient s (route s "control" mm.recipient (!st.world.virt.isEmpty))) st
+    else .ok (withAmbient s (route s (fwdKind "control" mm.dataValid) mm.recipient (!st.world.virt.isEmpty))) st
 
 /-- The response handler registered by `BackendServer.startDialout`: the
 extracted dereference table says whether it still touches
@@ -595,7 +612,8 @@ def internalSwitch (i : Internal) (http : Option String) : Outcome :=
     match i.add with
     | none => .crash "processInternalMsg: msg.AddSession"
     | some a =>
-      if roomExists s a.c.room then
+      if roomExists s a.c.room ∧ !a.userValid then .ok (amb { sMust := ["error:add_failed"] }) st
+      else if roomExists s a.c.room then
         .ok (amb { bMust := if a.c.room = .by then ["event.room.join"] else [],
                    bMay := if a.c.room = .by then ["event.participants.update", "event.participants.flags"] else [],
                    sMay := ["error:add_failed"], st := .chg })
@@ -669,13 +687,14 @@ def modelTransient (m : ClientMessage) : Outcome :=
         if !allowed then .ok (withAmbient s (errObs "not_allowed")) st
         else if !s.inBy then .ok { sMay := ambient, st := .any } st
         else
+          let setKind := fwdKind "transient.set" t.valueValid
           match (if t.ttype = "set" then t.value else none), lookupT t.key w.transient with
           | some v, some old =>
             if v = old then .ok { sMay := ambient } st
-            else .ok { sMust := ["transient.set"], sMay := ambient, bMust := ["transient.set"], st := .chg }
+            else .ok { sMust := [setKind], sMay := ambient, bMust := [setKind], st := .chg }
                   { st with world := { w with transient := (t.key, v) :: eraseT t.key w.transient } }
           | some v, none =>
-            .ok { sMust := ["transient.set"], sMay := ambient, bMust := ["transient.set"], st := .chg }
+            .ok { sMust := [setKind], sMay := ambient, bMust := [setKind], st := .chg }
               { st with world := { w with transient := (t.key, v) :: w.transient } }
           | none, some _ =>
             .ok { sMust := ["transient.remove"], sMay := ambient, bMust := ["transient.remove"], st := .chg }
@@ -698,8 +717,8 @@ def modelProxy (m : ClientMessage) : Outcome :=
   if m.mtype = "message" then
     match m.message with
     | none => .crash "FederationClient.ProxyMessage: message.Message"
-    | some _ => .ok { sMay := "message" :: "control" :: "error:not_allowed" :: ambient, st := .any } st
-  else .ok { sMay := "message" :: "control" :: "error:not_allowed" :: "error:not_in_room" :: "error:ignored" :: ambient, st := .any } st
+    | some _ => .ok { sMay := "message" :: "control" :: "error:*" :: ambient, st := .any } st
+  else .ok { sMay := "message" :: "control" :: "error:*" :: ambient, st := .any } st
 
 end handlers
 
@@ -717,7 +736,7 @@ def dispatchSession (st : St) (s : Sess) (m : ClientMessage) : Outcome :=
   else if h = "processInternalMsg" then modelInternal F st s m
   else if h = "processTransientMsg" then modelTransient st s m
   else if h = "processByeMsg" then modelBye st s m
-  else if h = "" then .ok { sMay := if s.room = .none then [] else ambient } st
+  else if h = "" then .ok { sMay := if s.seesRoom then ambient else [] } st
   else .crash ("processMessage dispatches to a handler the model does not know: " ++ h)
 
 /-- `Hub.processMessage` after decoding. -/
@@ -727,7 +746,7 @@ def processMessage (st : St) (m : ClientMessage) : Outcome :=
   | .crash site => .crash site
   | .err c =>
     let amb := match st.conn with
-      | .session s => if s.room = .none then [] else ambient
+      | .session s => if s.seesRoom then ambient else []
       | _ => []
     .ok { errObs c with sMay := amb } st
   | .ok =>
@@ -771,7 +790,7 @@ def processFrame (st : St) (f : Frame) : Outcome :=
       .ok { sMust := ["closed"], st := .chg } { st with conn := .dead }
     else
       let amb := match conn with
-        | .session s => if s.room = .none then [] else ambient
+        | .session s => if s.seesRoom then ambient else []
         | _ => []
       if f.binary ∧ F.binaryFrameAnsweredInvalidFormat then
         .ok { errObs "invalid_format" with sMay := amb } st
